@@ -14,15 +14,21 @@ SR, SW, CH = 10, 2, 1
 BLOCK = 0.1  # one sample per analysis window
 
 
-def pcm(pattern, sw=SW, ch=CH):
-    """One sample per window; loud samples carry their index in the low bits."""
+def pcm(pattern, sw=SW, ch=CH, spw=1):
+    """`spw` samples per window; loud samples carry their index in the low bits.  Pattern characters:
+    A loud on every channel, a quiet, L loud on the first channel only, R loud on the last channel only."""
     out = []
-    for i, c in enumerate(pattern):
-        v = (20000 + i) if c == "A" else (i % 5)
-        if sw == 1:
-            v = (100 + (i % 20)) if c == "A" else (i % 3)
-        for k in range(ch):
-            out.append(int(v - k).to_bytes(sw, "little", signed=True))
+    idx = 0
+    for c in pattern:
+        for _ in range(spw):
+            for k in range(ch):
+                loud = c == "A" or (c == "L" and k == 0) or (c == "R" and k == ch - 1)
+                if sw == 1:
+                    v = (100 + (idx % 20)) if loud else (idx % 3)
+                else:
+                    v = (20000 + idx % 9000 - k) if loud else (idx % 5)
+                out.append(int(v).to_bytes(sw, "little", signed=True))
+            idx += 1
     return b"".join(out)
 
 
@@ -84,15 +90,31 @@ SPLIT_VARIANTS = {
 _expect_cache = {}
 
 
-def expected(data, skw_name, sw=SW, ch=CH):
+def cfg_sr(cfg):
+    return cfg.get("sr", SR)
+
+
+def expected(data, skw_name, sw=SW, ch=CH, sr=SR, hop=None, extra=()):
     """Sequential reference: what split() returns for these bytes."""
-    key = (data, skw_name, sw, ch)
+    key = (data, skw_name, sw, ch, sr, hop, tuple(extra))
     if key not in _expect_cache:
         L = lib()
-        kw = SPLIT_VARIANTS[skw_name]
-        regs = list(L["core"].split(data, sr=SR, sw=sw, ch=ch, analysis_window=BLOCK, **kw))
+        kw = dict(SPLIT_VARIANTS[skw_name])
+        kw.update(dict(extra))
+        if hop:
+            rd = L["util"].AudioReader(data, block_dur=BLOCK, hop_dur=hop, sr=sr, sw=sw, ch=ch)
+            regs = list(L["core"].split(rd, **kw))
+        else:
+            regs = list(L["core"].split(data, sr=sr, sw=sw, ch=ch, analysis_window=BLOCK, **kw))
+        if len(_expect_cache) > 2000:
+            _expect_cache.clear()
         _expect_cache[key] = [(i, r.data, r.start, r.end, r.duration) for i, r in enumerate(regs, 1)]
     return _expect_cache[key]
+
+
+def exp_for(cfg, data):
+    return expected(data, cfg["split"], cfg.get("sw", SW), cfg.get("ch", CH), cfg_sr(cfg), cfg.get("hop"),
+                    tuple(sorted(cfg.get("split_extra", {}).items())))
 
 
 class Ctx:
@@ -109,7 +131,8 @@ def make_factory(cfg):
     kind = cfg["kind"]
     sw = cfg.get("sw", SW)
     ch = cfg.get("ch", CH)
-    data = pcm(cfg["pattern"], sw, ch)
+    sr = cfg_sr(cfg)
+    data = pcm(cfg["pattern"], sw, ch, max(1, round(sr * BLOCK)))
 
     def make():
         ctx = Ctx()
@@ -122,7 +145,7 @@ def make_factory(cfg):
         ctx.stdout = io.StringIO()
         if kind == "cli":
             return make_cli(ctx, cfg, data, sw, ch)
-        inner = L["util"].AudioReader(data, block_dur=BLOCK, sr=SR, sw=sw, ch=ch)
+        inner = L["util"].AudioReader(data, block_dur=BLOCK, hop_dur=cfg.get("hop"), sr=sr, sw=sw, ch=ch)
         ctx.inner = LogReader(inner)
         reader = ctx.inner
         ctx.saver = None
@@ -143,7 +166,7 @@ def make_factory(cfg):
                 ctx.printers.append(x)
             elif o == "join":
                 fn = os.path.join(ctx.dir, "joined%d.wav" % len(ctx.joiners))
-                x = w.AudioEventsJoinerWorker(cfg.get("silence", 0.1), fn, None, SR, sw, ch)
+                x = w.AudioEventsJoinerWorker(cfg.get("silence", 0.1), fn, None, sr, sw, ch)
                 x._verif_file = fn
                 ctx.joiners.append(x)
             elif o == "regsave":
@@ -154,7 +177,7 @@ def make_factory(cfg):
                 raise ValueError(o)
             obs.append(x)
         ctx.obs = obs
-        ctx.tw = w.TokenizerWorker(reader, obs, **SPLIT_VARIANTS[cfg["split"]])
+        ctx.tw = w.TokenizerWorker(reader, obs, **dict(SPLIT_VARIANTS[cfg["split"]], **cfg.get("split_extra", {})))
 
         def main():
             old = sys.stdout
@@ -193,7 +216,7 @@ def make_cli(ctx, cfg, data, sw, ch):
     ctx.status = "never returned"
     wav = os.path.join(ctx.dir, "in.wav")
     with wave.open(wav, "wb") as fp:
-        fp.setframerate(SR)
+        fp.setframerate(cfg_sr(cfg))
         fp.setsampwidth(sw)
         fp.setnchannels(ch)
         fp.writeframes(data)
@@ -204,7 +227,7 @@ def make_cli(ctx, cfg, data, sw, ch):
         argv.append("-d")
     for a in cfg["argv"]:
         argv.append(a.replace("@", ctx.dir + "/"))
-    ctx.saver_file = os.path.join(ctx.dir, "stream.wav")
+    ctx.saver_file = os.path.join(ctx.dir, "stream.raw" if any("stream.raw" in a for a in cfg["argv"]) else "stream.wav")
 
     class LoggingAudioReader(L["util"].AudioReader):
         def __init__(self, *a, **k):
@@ -268,6 +291,14 @@ def cleanup(ctx):
     shutil.rmtree(ctx.dir, ignore_errors=True)
 
 
+def _read_saved(path, sr, sw, ch):
+    """A saved stream: wav, or (name ending in .raw) headerless data in the known format."""
+    if path.endswith(".raw"):
+        with open(path, "rb") as fp:
+            return (sr, sw, ch, fp.read())
+    return _read_wav(path)
+
+
 def _read_wav(path):
     with wave.open(path, "rb") as fp:
         return (fp.getframerate(), fp.getsampwidth(), fp.getnchannels(), fp.readframes(-1))
@@ -283,6 +314,7 @@ def check(ex, ctx):
     L = lib()
     sw = cfg.get("sw", SW)
     ch = cfg.get("ch", CH)
+    sr = cfg_sr(cfg)
     if ex.outcome != "done":
         blocked = [(t.name, t.pending and t.pending[0]) for t in ex.th if t.started and not t.finished]
         return "%s: threads never end: %s" % (ex.outcome, blocked)
@@ -296,13 +328,21 @@ def check(ex, ctx):
         seen = b"".join(ctx.inner.blocks)
         if seen != ctx.data[: len(seen)]:
             return "reader handed out bytes that are not a prefix of the source"
-        exp = expected(seen, cfg["split"], sw, ch)
+        exp = exp_for(cfg, seen)
         what = "the %d blocks read before the stop" % k
     else:
         seen = b"".join(ctx.inner.blocks)
-        if seen != ctx.data:
+        if cfg.get("hop"):
+            from .chk_reader import blocks_of
+
+            bps = sw * ch
+            smp = [ctx.data[i : i + bps] for i in range(0, len(ctx.data), bps)]
+            want_blocks = blocks_of(smp, round(sr * BLOCK), round(sr * cfg["hop"]))
+            if ctx.inner.blocks != want_blocks:
+                return "stream ended after %d overlapping blocks, the source holds %d" % (len(ctx.inner.blocks), len(want_blocks))
+        elif seen != ctx.data:
             return "stream ended but only %d of %d bytes were read" % (len(seen), len(ctx.data))
-        exp = expected(ctx.data, cfg["split"], sw, ch)
+        exp = exp_for(cfg, ctx.data)
         what = "the whole stream"
     want = [(i, d, s) for i, d, s, e, du in exp]
     dets = [(d.id, d.start, d.end, d.duration) for d in ctx.tw.detections]
@@ -326,17 +366,18 @@ def check(ex, ctx):
             sr_, sw_, ch_, frames = _read_wav(j._verif_file)
         except Exception as exc:
             return "joined-events file is not a readable wav: %r" % (exc,)
-        sil = b"\0" * (round(cfg.get("silence", 0.1) * SR) * sw * ch)
+        sil = b"\0" * (round(cfg.get("silence", 0.1) * sr) * sw * ch)
         ref = sil.join(d for i, d, s, e, du in exp)
-        if (sr_, sw_, ch_) != (SR, sw, ch):
+        if (sr_, sw_, ch_) != (sr, sw, ch):
             return "joined-events file has parameters %r" % ((sr_, sw_, ch_),)
         if frames != ref:
             return "joined-events file holds %d bytes, events joined by %d zero bytes are %d bytes (or content differs)" % (
                 len(frames), len(sil), len(ref))
         if cfg["kind"] == "run":
-            r = L["core"].split_and_join_with_silence(ctx.data, cfg.get("silence", 0.1), sr=SR, sw=sw, ch=ch,
-                                                      analysis_window=BLOCK, **SPLIT_VARIANTS[cfg["split"]])
-            if (r.data if r is not None else b"") != frames:
+            r = None if cfg.get("hop") else L["core"].split_and_join_with_silence(
+                ctx.data, cfg.get("silence", 0.1), sr=sr, sw=sw, ch=ch, analysis_window=BLOCK,
+                **dict(SPLIT_VARIANTS[cfg["split"]], **cfg.get("split_extra", {})))
+            if not cfg.get("hop") and (r.data if r is not None else b"") != frames:
                 return "joined-events file differs from split_and_join_with_silence()"
     for rs in ctx.regsavers:
         tpl = os.path.join(ctx.dir, cfg.get("template", "ev_{id}.wav"))
@@ -347,17 +388,17 @@ def check(ex, ctx):
             if not os.path.exists(fn):
                 return "no file %s for detection %d" % (os.path.basename(fn), i)
             sr_, sw_, ch_, frames = _read_wav(fn)
-            if (sr_, sw_, ch_, frames) != (SR, sw, ch, d):
+            if (sr_, sw_, ch_, frames) != (sr, sw, ch, d):
                 return "file %s does not hold detection %d" % (os.path.basename(fn), i)
         extra = set(f for f in os.listdir(ctx.dir) if f.startswith(os.path.basename(tpl).split("{")[0])) - names
         if extra:
             return "unexpected region files %r" % sorted(extra)
     if ctx.saver is not None:
         try:
-            sr_, sw_, ch_, frames = _read_wav(ctx.saver_file)
+            sr_, sw_, ch_, frames = _read_saved(ctx.saver_file, sr, sw, ch)
         except Exception as exc:
             return "saved stream is not a readable wav: %r" % (exc,)
-        if (sr_, sw_, ch_) != (SR, sw, ch):
+        if (sr_, sw_, ch_) != (sr, sw, ch):
             return "saved stream has parameters %r" % ((sr_, sw_, ch_),)
         if frames != b"".join(ctx.inner.blocks):
             return "saved stream holds %d bytes, the wrapped reader produced %d (or content differs)" % (
@@ -530,10 +571,14 @@ def plan(prop, tier):
         for p in (["AAA", "AAAA"] if quick else ["AAA", "AAAA", "AAAAA", "AAaAAA"]):
             for o in (["rec"], ["rec", "rec"]):
                 tasks.append((dict(kind="run", pattern=p, observers=o, split="s2"), 1 if len(o) > 1 else K, 0, "sync", None, None))
+        # channel selection given to the worker (long name and alias) on stereo audio whose channels differ
+        for extra in ({"use_channel": 0}, {"uc": 1}, {"uc": "mix"}, {"use_channel": -1, "eth": 60}):
+            tasks.append((dict(kind="run", pattern="LRaA", observers=["rec"], split="s2", ch=2, split_extra=extra), 1, 0, "sync", None, None))
         for p, o, sp in (("AaA", ["rec", "print"], "s0"), ("AAAA", ["rec", "rec"], "s2"), ("AAaA", ["rec", "join", "regsave"], "s1")):
             tasks.append((dict(kind="run", pattern=p, observers=o, split=sp), 1, 0, "race", 2 if quick else 3, None))
         # directed starvation schedules on a long stream (300 detections): capacity effects
         tasks.append((dict(kind="run", pattern="A" * 300, observers=["rec", "print"], split="s2"), 10 ** 6, 0, "directed", None, None))
+        tasks.append((dict(kind="run", pattern="A" * 150, observers=["rec", "rec", "print"], split="s2"), 10 ** 6, 0, "directed", None, None))
         # line-level pass: the stand-in for a race detector
         for p in (["A", "AaA"] if quick else ["A", "AaA", "AAAA"]):
             tasks.append((dict(kind="run", pattern=p, observers=["rec"], split="s0"), 0, 0, "line", 1, None))
@@ -563,6 +608,15 @@ def plan(prop, tier):
                 tasks.append((dict(kind="cli", pattern=p, observers=[], split="s0", argv=argv), 0 if quick else 1, 1, "sync", None, None))
         for p in (["A"] if quick else ["A", "AaA"]):
             tasks.append((dict(kind="stop", pattern=p, observers=["rec"], split="s0"), 0, 0, "line", 1, None))
+        for p in (["AaA", "AAAA"] if quick else ["AaA", "AAAA", "AAaA", "AaAa"]):
+            tasks.append((dict(kind="stop", pattern=p, observers=["regsave"], split="s0"), K, 0, "sync", None, None))
+            tasks.append((dict(kind="stop", pattern=p, observers=["join"], split="s2"), K, 0, "sync", None, None))
+            tasks.append((dict(kind="stop", pattern=p, observers=["rec"], split="s0", saver=True, cache=1000, sw=1, ch=1), K, 0, "sync", None, None))
+        tasks.append((dict(kind="stop", pattern="AAA", observers=["regsave", "print"], split="s2"), 0, 0, "sync", None, None))
+        tasks.append((dict(kind="stop", pattern="AAAAA", observers=["join"], split="s0", saver=True, cache=0.1, sw=1, ch=3), 0, 0, "sync", None, None))
+        for p in (["AaA"] if quick else ["A", "AaA", "AAAA"]):
+            tasks.append((dict(kind="cli", pattern=p, observers=[], split="s0", argv=["-O", "@stream.raw"]), 0, 1, "sync", None, None))
+        tasks.append((dict(kind="stop", pattern="A" * 300, observers=["rec"], split="s2", saver=True, cache=0.5), 10 ** 6, 0, "directed", None, None))
         tasks.append((dict(kind="stop", pattern="AAaA", observers=["rec", "print"], split="s0", saver=True, cache=0.1), 1, 0, "race", 2 if quick else 3, None))
         tasks.append((dict(kind="cli", pattern="AaA", observers=[], split="s0", argv=["-O", "@stream.wav"]), 0, 1, "race", 2, None))
         tasks.append((dict(kind="cli", pattern="AAAA", observers=[], split="s0", argv=["-q", "-O", "@stream.wav", "-j", "0.1", "-o", "@ev_{id}.wav"]), 0, 1, "race", 2, None))
@@ -597,6 +651,13 @@ def plan(prop, tier):
         for p, o, c in (("AAAA", [], 0.1), ("AAAAA", [], 0.15), ("AaAA", ["join", "regsave"], 0.1), ("AAAA", ["join"], 1000)):
             tasks.append((dict(base, pattern=p, observers=o, saver=True, cache=c), 1, 0, "race", 2 if quick else 3, None))
         tasks.append((dict(base, pattern="Aa" * 150, observers=["join"], split="s2", saver=True, cache=0.5), 10 ** 6, 0, "directed", None, None))
+        # realistic rate: 1600-sample windows, > 64 KiB of joined audio, a cache smaller than the stream
+        tasks.append((dict(kind="run", pattern="AAAAAAAAAAAAaaAAAAAAAAAAAAaaAAAAAAAAAAAAaaAAAAAAAA", observers=["join", "regsave"], split="s1",
+                           saver=True, cache=0.5, sr=16000, silence=0.1), 10 ** 6, 0, "directed", None, None))
+        # overlapping windows under the stream saver
+        for p in ("AaA", "AAAA"):
+            tasks.append((dict(base, pattern=p, observers=[], saver=True, cache=0.1, sr=20, hop=0.05), 1, 0, "sync", None, None))
+        tasks.append((dict(base, pattern="AAaAA", observers=["join"], saver=True, cache=0.15, sr=20, hop=0.05), 0, 0, "sync", None, None))
         tasks.append((dict(kind="stop", pattern="AaA", observers=["join"], split="s0", saver=True, cache=0.15), 0, 0, "sync", None, None))
         for p in (["AA"] if quick else ["AA", "AaA"]):
             tasks.append((dict(base, pattern=p, observers=[], saver=True, cache=0.1), 0, 0, "line", 2, None))
